@@ -786,6 +786,92 @@ func freeEvict(enc *json.Encoder, rng *rand.Rand) int {
 	})
 }
 
+// ctlEvict: evictors and requesters under a controlled random scheduler: every acquisition of the EvictionState mutex is
+// a stopping point (hook evictionstate-lock); between two quiescent points exactly one parked goroutine is released, so a
+// requester can be run to completion while an evictor stands between two of its critical sections (if it has two).
+func ctlEvict(enc *json.Encoder, rng *rand.Rand) int {
+	r := newRun(core.Ev{"kind": "evict"})
+	r.gate.HoldAll()
+	hive.VerifHook = func(p string) {
+		if p == "evictionstate-lock" {
+			r.gate.Wait("hook:" + p)
+		}
+	}
+	defer func() { hive.VerifHook = nil }()
+	es := hive.NewEvictionState[int]()
+	type handle struct {
+		slot int
+		ev   hive.Event
+	}
+	var hmu sync.Mutex
+	handles := []handle{}
+	maxSlot := 1 + rng.Intn(3)
+	var done sync.WaitGroup
+	spawn := func(id int, f func()) {
+		done.Add(1)
+		r.spawn(id, func() { defer done.Done(); f() })
+	}
+	for t := 1; t <= 1+rng.Intn(2); t++ {
+		rg := sub(rng)
+		spawn(t, func() {
+			for s := rg.Intn(2); s <= maxSlot; s += 1 + rg.Intn(2) {
+				r.log(core.Ev{"op": "evictB", "s": s})
+				es.Evict(s)
+				r.log(core.Ev{"op": "evict", "s": s})
+			}
+		})
+	}
+	for t := 3; t <= 3+rng.Intn(2); t++ {
+		t := t
+		rg := sub(rng)
+		spawn(t, func() {
+			for k := 0; k < 2+rg.Intn(3); k++ {
+				s := rg.Intn(maxSlot + 1)
+				r.log(core.Ev{"op": "reqB", "t": t, "s": s})
+				h := es.EvictionEvent(s)
+				trig := 0
+				if h.WasTriggered() {
+					trig = 1
+				}
+				r.log(core.Ev{"op": "req", "t": t, "s": s, "trig": trig})
+				hmu.Lock()
+				handles = append(handles, handle{s, h})
+				hmu.Unlock()
+			}
+		})
+	}
+	allDone := make(chan struct{})
+	go func() { done.Wait(); close(allDone) }()
+	sticky := ""
+	for step := 0; step < 400; step++ {
+		sched.QuiesceOpt(50*time.Millisecond, 2, false)
+		n := r.gate.Parked("hook:evictionstate-lock")
+		if n == 0 {
+			select {
+			case <-allDone:
+				step = 1 << 30
+			default:
+			}
+			continue
+		}
+		_ = sticky
+		// release one of the parked goroutines: the oldest or (as often) a random later one
+		r.gate.ReleaseNth("hook:evictionstate-lock", rng.Intn(n))
+	}
+	r.gate.ReleaseAll()
+	return r.finish(enc, 5*time.Second, func() core.Ev {
+		hs := []any{}
+		for _, h := range handles {
+			trig := 0
+			if h.ev.WasTriggered() {
+				trig = 1
+			}
+			hs = append(hs, []any{h.slot, trig})
+		}
+		return core.Ev{"last": es.LastEvictedSlot(), "handles": hs}
+	})
+}
+
 // ------------------------------------------------------------------------------------------------ command
 
 // derivedrun -seed S -traces N -out F [-kinds a,b,...] [-forced name,...|all|none]
@@ -794,7 +880,7 @@ func derivedRun(args []string) int {
 	seed := fs.Int64("seed", 1, "")
 	traces := fs.Int("traces", 60, "")
 	out := fs.String("out", "", "")
-	kinds := fs.String("kinds", "var2,inherit,union,subtract,counter,sorted,sortedtie,waitgroup,waitgroup2,evict", "")
+	kinds := fs.String("kinds", "var2,inherit,union,subtract,counter,sorted,sortedtie,waitgroup,waitgroup2,evict,evictctl", "")
 	forced := fs.String("forced", "all", "")
 	_ = fs.Parse(args)
 	f, err := os.Create(*out)
@@ -873,6 +959,8 @@ func derivedRun(args []string) int {
 			hangs += freeWaitGroup(enc, rng, true)
 		case "evict":
 			hangs += freeEvict(enc, rng)
+		case "evictctl":
+			hangs += ctlEvict(enc, rng)
 		default:
 			fmt.Fprintln(os.Stderr, "unknown kind", ks[tr%len(ks)])
 			return 2
